@@ -231,7 +231,10 @@ def stepItem (cfg : Cfg) (s : MSt) : TItem → MSt
            if (kd == .partitionUnavailable || kd == .leaderUnavailable) && s1.reqs.any (fun q => q.op == some op)
            then fail s1 s!"op {op}: requests were sent although routing failed"
            else (match kd with
-             | .brokerError _ => { s1 with pendingRouting := s1.pendingRouting ++ [op] }
+             | .brokerError _ =>
+               -- raised by `_handle_responses` after every request was issued and answered (a coordinator look-up
+               -- failing with a broker error code happens before anything is issued)
+               if s1.reqs.any (fun q => q.op == some op) then { s1 with pendingRouting := s1.pendingRouting ++ [op] } else s1
              | _ => s1)
          | _ => s1)
     | _ => s
